@@ -234,12 +234,50 @@ def docs(base):
     return progs + base_forms
 
 
+def name_coincidences():
+    """declarations in which two binders carry the SAME name (a function and one of its parameters, a parameter and an outer
+    variable, a binder and its scrutinee, a loop variable and its iterator, repeated names in one destructuring / struct
+    literal / parameter list), each followed by every way of mentioning the name afterwards: the checker resolves names in
+    two passes (creation, folding) and both must find what the other declared"""
+    decls = [
+        "f := (f: int) -> int { return f + 1 }",
+        "f := (a: int, f: int) -> int { return a + f }",
+        "f := (f: () -> int) -> int { return f() }",
+        "f := (f: int) -> int { if f > 0 { return f - 1 }; return 0 }",
+        "f := (x: int) -> int { f := x + 1; return f }",
+        "f := (x: int) -> int { return x }; f := (f: int) -> int { return f }",
+        "f := 5; f := (f: int) -> int { return f }",
+        "g := (f: int) -> int { return f }; f := (g: int) -> int { return g }",
+        "f := (x: int, x: int) -> int { return x }",
+        "f := () -> int { f := () -> int { return 1 }; return f() }",
+        "f := (v: int) -> int { return v }; f := f",
+        "f := mod { f := (f: int) -> int { return f } }",
+        "m := mod { f := (f: int) -> int { return f }; g := f }; f := m.f",
+        "f := { f := (f: int) -> int { return f }; f }",
+        "(f, f) := (1, 2)",
+        "f := [1, 2]~; for f in f { f }",
+        "f := *(mut int|string 1); if f: int = f { f }",
+        "f := *(mut int|string 1); match f { f: int => { f }, f: string => { 0 }, }",
+        "f := struct{f := 1, f := 2}",
+        "f := 1; f := struct{f}",
+    ]
+    mentions = ["", "f", "f(2)", "f(f)", "struct{f}", "g := f", "[f]", "(f, 1)", "h := () -> any { return f }", "h := () -> any { return f }; h()",
+                "{ f }", "if true { f }", "mod { g := f }", "f := f", "x := mut f", "f == f", "[f] ~ $]", "match 1 { 1 => { f }, => { f }, }"]
+    out = []
+    for d in decls:
+        for m in mentions:
+            out.append(d + ("; " + m if m else ""))
+            out.append("w := () -> any { " + d + ("; " + m if m else "") + " }")
+    return out
+
+
 def run(res, tier, seed, broken_model):
     rnd = random.Random(seed)
     thorough = tier == "thorough"
     base = os.path.join(CACHE, "c03-scratch", str(os.getpid()))
     shutil.rmtree(base, ignore_errors=True)
     streams = [("matrix", matrix(rnd, thorough), "c"), ("constants", constants(rnd, thorough), "c"), ("docs", docs(base), "a"),
+               ("names", name_coincidences(), "c"),
                ("whitespace", None, "a"), ("tokens", token_sequences(rnd, thorough), "a"), ("text", texts(rnd, seed, thorough), "a")]
     total = {}
     for name, progs, which in streams:
